@@ -3,6 +3,8 @@ import obl_assembly as A
 
 
 def run(c):
+    import clauses
+    c.only_clauses = clauses.OWN["C09"]
     if A.validate_assembly_concrete(c):
         ct = A.conv_table_for([p for w in A.WRAPPERS_QUICK for p in w])
         A.obl_learn(c, ct, thorough=(c.tier == "thorough"), budget_s=2400)
